@@ -197,6 +197,18 @@ impl<CS: CLCiphersuite> PoKSignature<CL03<CS>> {
                         return false;
                     }
 
+                    // the range proof must be about the commitment whose opening was just proved
+                    if &CLSPoK
+                        .range_proofs_commited_mi
+                        .get(idx)
+                        .expect("index overflow")
+                        .E
+                        != cmi
+                    {
+                        println!("Range proof on mi is about another commitment!");
+                        return false;
+                    }
+
                     let boolean_rproofs_mi = CLSPoK
                         .range_proofs_commited_mi
                         .get(idx)
@@ -437,6 +449,11 @@ impl<CS: CLCiphersuite> ZKPoK<CL03<CS>> {
                 return false;
             }
             let rproof_mi = zkpok.range_proofs_mi.get(idx).expect("index overflow");
+            // the range proof must be about the commitment whose opening was just proved
+            if rproof_mi.E != proof_mi.commitment {
+                println!("Range Proof of m{} is about another commitment!", i);
+                return false;
+            }
             let boolean_rproof_mi =
                 rproof_mi.verify::<CS::HashAlg>(&ai, &signer_pk.b, &signer_pk.N, &min_x, &max_x);
             if !boolean_rproof_mi {
@@ -460,6 +477,10 @@ impl<CS: CLCiphersuite> ZKPoK<CL03<CS>> {
 
         let min_r = Integer::from(0);
         let max_r = Integer::from(2).pow(CS::ln) - 1;
+        if zkpok.range_proof_r.E != zkpok.proof_r.commitment {
+            println!("Range Proof of r is about another commitment!");
+            return false;
+        }
         let boolean_rproof_r = zkpok.range_proof_r.verify::<CS::HashAlg>(
             &a_bases.0[0],
             &signer_pk.b,
